@@ -41,7 +41,7 @@ pub struct Case {
 pub struct C11;
 
 fn clone_state(st: &HState) -> HState {
-    HState { t: st.t.clone(), r: st.r.clone(), in_dim: st.in_dim, out_dim: st.out_dim, anchors: st.anchors.clone(), tracking: st.tracking }
+    HState { t: st.t.clone(), r: st.r.clone(), in_dim: st.in_dim, out_dim: st.out_dim, anchors: st.anchors.clone(), shift: st.shift, tracking: st.tracking }
 }
 
 fn dump_key(st: &HState) -> u64 {
@@ -62,6 +62,7 @@ fn dump_key(st: &HState) -> u64 {
 pub fn run_case(c: &Case, ctx: &mut Ctx) -> CaseResult {
     hook::reset();
     let mut st0 = init(&c.base)?;
+    ctx.class_if(c.base.shift > 0, "data_far_from_origin");
     for op in &c.base.ops {
         let info = step(&mut st0, op)?;
         let _ = info;
@@ -190,7 +191,7 @@ impl Property for C11 {
         "fault_enumeration"
     }
     fn rule(&self) -> String {
-        "trees produced by short generated histories (fresh and cached feasibility states, total and partial, contradicting predicates) x operation in {infeasible_elimination, compose<true>(schema or tree), tree +- tree} x fault plans injected at Polytope::solve_linprog through the cfg(affinitree_verif) hook: when the fault-free run makes N <= 40 LP calls EVERY single position x kind in {Error, Unbounded, perturbed witness (violates one row by 1e-5), far-off witness} is executed (exhaustive for that case), otherwise 160 sampled single faults; plus generated multi-fault plans (2-5 positions, mixed kinds). Per plan: no panic, well-formed, function equal to the unpruned reference (all full-dimensional cells + boundary inputs under the thin rule), sound caches (C05 oracle), and every node that vanished under the plan is audited for soundness (its region contains no ball of radius 1e-6: 'the only permitted effect is less pruning' is judged per removal, not by comparing survivor sets). Non-trivial = at least one injected fault changed the answer the library saw and (for elimination) the fault-free run pruned a node; distinct = distinct serialised cases".into()
+        "trees produced by short generated histories (fresh and cached feasibility states, total and partial, contradicting predicates) x operation in {infeasible_elimination, compose<true>(schema or tree), tree +- tree} x fault plans injected at Polytope::solve_linprog through the cfg(affinitree_verif) hook: when the fault-free run makes N <= 40 LP calls EVERY single position x kind in {Error, Unbounded, perturbed witness (violates one row by 1e-5), far-off witness} is executed (exhaustive for that case), otherwise 160 sampled single faults; plus generated multi-fault plans (2-5 positions, mixed kinds). Per plan: no panic, well-formed, function equal to the unpruned reference (all full-dimensional cells + boundary inputs under the thin rule), sound caches (C05 oracle), and every node that vanished under the plan is audited for soundness (its region contains no ball of radius 1e-6: 'the only permitted effect is less pruning' is judged per removal, not by comparing survivor sets). Non-trivial = at least one injected fault changed the answer the library saw and (for elimination) the fault-free run pruned a node; distinct = distinct serialised cases; 1 history in 25 has its input-space data translated by 2^20..2^30 (data far from the origin)".into()
     }
     fn assumptions(&self) -> Vec<String> {
         vec![
